@@ -168,6 +168,13 @@ def check(case: dict):
         else:
             with core.TempDir() as td:
                 path = os.path.join(td, "ds.zanj")
+                if case.get("overwrite"):
+                    # the path already holds an earlier save of another dataset with an EQUAL configuration (other mazes)
+                    other = MazeDataset(cfg=ds.cfg, mazes=list(ds.mazes[::-1]) if len(ds.mazes) >= 2 else list(ds.mazes), generation_metadata_collected=ds.generation_metadata_collected)
+                    if case["overwrite"] == "rotated" and len(ds.mazes) >= 2:
+                        other = MazeDataset(cfg=ds.cfg, mazes=list(ds.mazes[1:]) + list(ds.mazes[:1]), generation_metadata_collected=ds.generation_metadata_collected)
+                    call(f"{sig}:save-earlier", lambda: ZANJ().save(other._serialize_full(), path))
+                    pre_lengths = [len(m.solution) for m in ds.mazes]
                 if fmt == "auto":
                     call(f"{sig}:save", ds.save, path)
                 else:
@@ -254,7 +261,9 @@ def check_collection(case: dict):
         names = case.get("names") or list(range(len(members)))  # members may share a config name
         for j, ds in enumerate(members):
             ds.cfg.name = f"m{names[j]}"
-        ccfg = MazeDatasetCollectionConfig(name="col", maze_dataset_configs=[ds.cfg for ds in members])
+        extra = case.get("ccfg") or {}
+        ccfg = MazeDatasetCollectionConfig(name=extra.get("name", "col"), maze_dataset_configs=[ds.cfg for ds in members],
+                                           **{k: v for k, v in extra.items() if k in ("seq_len_min", "seq_len_max", "seed")})
         col = MazeDatasetCollection(ccfg, members)
     thr = case.get("threshold", 100)
     lens = [len(ds) for ds in members]
@@ -345,6 +354,8 @@ def _case(draw, n_hi, mazes_hi):
     if case["fmt"] == "auto":
         case["threshold"] = draw(st.sampled_from([None, 1, "len", "len+1", 100, 3]))
     case["channel"] = draw(st.sampled_from(["memory", "memory", "file"]))
+    if case["channel"] == "file" and draw(st.booleans()):
+        case["overwrite"] = draw(st.sampled_from(["reversed", "rotated"]))
     if draw(st.booleans()):
         case["again"] = {"op": draw(st.sampled_from(["reverse", "rotate", "swap", "subset", "mix", "same-object", "inplace-reverse", "inplace-swap", "inplace-replace", "inplace-assign"])), "k": draw(st.integers(0, 5)), "j": draw(st.integers(0, 3)),
                          "fmt": draw(st.sampled_from(["full", "minimal", "soln_cat"]))}
@@ -369,6 +380,10 @@ def _collection(draw):
     case = {"members": members, "threshold": thr, "channel": draw(st.sampled_from(["memory", "file"]))}
     if draw(st.booleans()):
         case["names"] = [draw(st.integers(0, max(0, k // 2))) for _ in range(k)]
+    if draw(st.booleans()):
+        # fields the collection configuration inherits from the generic dataset configuration
+        case["ccfg"] = {"name": draw(st.sampled_from(["col", "my collection"])), "seq_len_min": draw(st.sampled_from([1, 4, 16])), "seq_len_max": draw(st.sampled_from([512, 1024, 77])),
+                        "seed": draw(st.sampled_from([42, 0, 7]))}
     if all(m["src"] == "gen" for m in members) or draw(st.booleans()):
         case["route"] = "generate"
         case["members"] = [m if m["src"] == "gen" else draw(_gen_dataset(4, 6)) for m in members]
